@@ -16,7 +16,6 @@ from lib.core import Case
 from lib import cbuild
 
 ID = "C12"
-NOT_CLAIMED = "temporarily withdrawn: model being updated to the repaired attribute split (fix 0df3cf8)"
 LEAN_MODULES = ["AwsVerif.Props.C12"]
 COMPONENT = "xml"
 P_DIFF_CONCRETE = False   # malformed input: verdict differences are conformance; the oracle decides violations
@@ -37,12 +36,14 @@ MAX_NAME = 256
 MAX_ATTRS = 10
 NAMES = [b"a", b"ab", b"abc", b"b", b"aa"]
 ATTR_NAMES = [b"k", b"id", b"a", b"ab", b"x1", b"ns:t"]
-VALUE_ALPHABET = b"abxyz019/:-._&'#;a b"  # the space is removed below
+VALUE_ALPHABET = b"abxyz019/:-._&'#;=a =b"  # the space is removed below
 VALUE_ALPHABET = bytes(c for c in VALUE_ALPHABET if c != 0x20)
 TEXT_ALPHABET = b"ab c/x=\"'&;\n\t0-?!a b/a"
 ERR_XML = "AWS_ERROR_INVALID_XML"
 ERR_ABORT = "AWS_ERROR_INVALID_ARGUMENT"
-FINDING_ATTR_EQ = "C12-attr-value-equals"
+# attribute pieces other than name="value": the bare name `k` (value {NULL,0}) and `k=` (empty value)
+BARE = ("bare",)
+EQONLY = ("eq",)
 
 
 # ----------------------------------------------------------------------------- trees and rendering
@@ -51,7 +52,7 @@ class Node:
 
     def __init__(self, name, attrs=None, kids=None):
         self.name = name            # bytes
-        self.attrs = attrs or []    # [(name bytes, value bytes)]
+        self.attrs = attrs or []    # [(name bytes, value bytes | BARE | EQONLY)]
         self.kids = kids or []      # Node | bytes (text)
 
     def elems(self):
@@ -62,7 +63,20 @@ class Node:
 
 
 def render_open(n):
-    return b"<" + n.name + b"".join(b" " + k + b'="' + v + b'"' for k, v in n.attrs) + b">"
+    return b"<" + n.name + b"".join(render_attr(k, v) for k, v in n.attrs) + b">"
+
+
+def render_attr(k, v):
+    if v is BARE or v == BARE:
+        return b" " + k
+    if v is EQONLY or v == EQONLY:
+        return b" " + k + b"="
+    return b" " + k + b'="' + v + b'"'
+
+
+def attr_value(v):
+    """the value the property demands for an attribute piece"""
+    return b"" if isinstance(v, tuple) else v
 
 
 def render_kids(n, unclosed=None):
@@ -114,11 +128,19 @@ def parse_dialect(doc):
             return None
         attrs = []
         for a in parts[1:]:
-            eq = a.find(b"=")
-            if eq < 1:
-                return None
+            eq = a.find(b"=")          # the first '=' separates name and value; the value may contain more
+            if eq < 0:
+                if not name_ok(a):
+                    return None
+                attrs.append((a, BARE))
+                continue
             k, v = a[:eq], a[eq + 1:]
-            if not name_ok(k) or len(v) < 2 or v[:1] != b'"' or v[-1:] != b'"' or b'"' in v[1:-1]:
+            if not name_ok(k):
+                return None
+            if v == b"":
+                attrs.append((k, EQONLY))
+                continue
+            if len(v) < 2 or v[:1] != b'"' or v[-1:] != b'"' or b'"' in v[1:-1]:
                 return None
             attrs.append((k, v[1:-1]))
         node = Node(parts[0], attrs, [])
@@ -176,7 +198,7 @@ class Stop(Exception):
         self.err = err
 
 
-def expected(root, prog, max_depth=0, drop_eq_attrs=False, watch=None):
+def expected(root, prog, max_depth=0, watch=None):
     """P lines the property demands for this tree and program (pre-order events of the reached nodes,
     bodies, final rc), with the parser's limits as the points of rejection.
     watch: a Node whose closing tag is missing in the document (bodies of its ancestors are rendered
@@ -191,7 +213,7 @@ def expected(root, prog, max_depth=0, drop_eq_attrs=False, watch=None):
             reached[0] = True
         if len(n.attrs) > MAX_ATTRS:
             raise Stop(ERR_XML)
-        attrs = [(k, v) for k, v in n.attrs if not (drop_eq_attrs and b"=" in v)]
+        attrs = [(k, attr_value(v)) for k, v in n.attrs]
         lines.append(f"P node d={depth} name={hx(n.name)} na={len(attrs)}")
         for k, v in attrs:
             lines.append(f"P attr {hx(k)} {hx(v)}")
@@ -246,24 +268,31 @@ def rand_text(rng, maxlen=8):
     return bytes(rng.choice(TEXT_ALPHABET) for _ in range(rng.randint(1, maxlen)))
 
 
-def rand_value(rng, eq=False):
+def rand_value(rng):
     r = rng.random()
-    if r < 0.15:
+    if r < 0.12:
         v = b""
-    elif r < 0.3:
+    elif r < 0.27:
         v = rng.choice([b"a", b"/", b"ab/", b"/a", b"v"])
+    elif r < 0.42:
+        # '=' inside values (repaired defect 0df3cf8: such attributes used to vanish)
+        v = rng.choice([b"dGVzdA==", b"=", b"a=b=c", b"==", b"=a", b"a=", b"x=y", b"k=v", b"/=", b"=/"])
     else:
         v = bytes(rng.choice(VALUE_ALPHABET) for _ in range(rng.randint(1, 6)))
-    if eq:
-        i = rng.randint(0, len(v))
-        v = v[:i] + b"=" + v[i:]
     return v
 
 
-def rand_attrs(rng, n=None):
+def rand_attrs(rng, n=None, bare=False):
     if n is None:
         n = rng.choice([0, 0, 0, 1, 1, 2, 3, 5, 9, 10, 10, 11])
-    return [(rng.choice(ATTR_NAMES), rand_value(rng)) for _ in range(n)]
+    out = []
+    for _ in range(n):
+        k = rng.choice(ATTR_NAMES)
+        if bare and rng.random() < 0.4:
+            out.append((k, rng.choice([BARE, EQONLY])))
+        else:
+            out.append((k, rand_value(rng)))
+    return out
 
 
 def rand_name(rng, parent=None):
@@ -368,6 +397,12 @@ def gen_wf(rng, tier):
             if rng.random() < 0.5:
                 root = Node(rng.choice(NAMES), [], [root])
             kind = "longname"
+        if kind in ("tree", "maxdepth") and rng.random() < 0.15:
+            # name-only attribute pieces `k` and `k=` (reported with an empty value)
+            for nd in all_nodes(root):
+                if rng.random() < 0.5:
+                    nd.attrs = rand_attrs(rng, rng.choice([1, 2, 3, 10, 11]), bare=True)
+            kind = "bare-attrs"
         pre = rand_preamble(rng)
         trailer = rng.choice([b"", b"", b"\n", b"  x"])
         doc = render_doc(root, pre, trailer)
@@ -503,13 +538,6 @@ def mutate(rng, doc):
     return bytes(doc)
 
 
-def _hits_attr_eq(doc):
-    if b'=' not in doc:
-        return False
-    root = parse_dialect(doc)
-    return root is not None and any(b"=" in v for n in all_nodes(root) for _, v in n.attrs)
-
-
 RAND_ALPHABET = b"<<<>>>//  ==\"\"??!!aaabbc\x00\n\t-x"
 
 
@@ -532,11 +560,6 @@ def malformed_cases(rng, tier):
         else:
             doc = bytes(rng.randrange(256) for _ in range(rng.randint(0, 64)))
             kind = "uniform"
-        if _hits_attr_eq(doc):
-            # a mutation produced a well-formed document with '=' inside an attribute value: that is the open
-            # finding C12-attr-value-equals, exhibited by corpus/C12/attr_value_*.ops; more instances would only use
-            # up the checker's report budget
-            doc = doc.replace(b"=", b"")
         md = rng.choice([0, 0, 0, 1, 2, 3])
         cases.append(Case([f"xml {md} {hx(doc)} {rand_prog(rng)}"], dict(stream="mal", kind=kind)))
     # boundary documents, each with every constant program
@@ -659,30 +682,6 @@ def _first_diff(what, got, exp):
     return what
 
 
-def classify(case, detail):
-    """known finding C12-attr-value-equals: every op of the (minimised) case that deviates from its tree does so
-    only in that the attributes whose value contains '=' are missing from the reported attribute lists"""
-    if detail.get("kind") != "oracle":
-        return None
-    hits = 0
-    for op, seg in _segments(case, detail.get("impl", [])):
-        if op is None:
-            return None
-        if not oracle_op(op, seg, case.tags or {}):
-            continue
-        md, doc, prog = op
-        root = parse_dialect(doc)
-        if root is None or not any(b"=" in v for n in all_nodes(root) for _, v in n.attrs):
-            return None
-        plines = [l for l in seg if l.startswith("P ")]
-        exp_defect, _ = expected(root, prog, md, drop_eq_attrs=True)
-        exp, _ = expected(root, prog, md)
-        if not (plines == exp_defect and plines != exp):
-            return None
-        hits += 1
-    return FINDING_ATTR_EQ if hits else None
-
-
 def nontrivial(case):
     op = _op(case)
     if op is None:
@@ -733,7 +732,7 @@ MANIFEST = dict(
           "against the parser rebuilt from the working tree under ASan/UBSan on rendered trees with every per-node action "
           "(direct oracle = the tree) and on mutated / random documents (views monitored, exact-size blocks, NULL/0)."),
     note=("Trusted: Lean kernel; hand-written model Model/Xml.lean (tied by correspondence only); harness/xml.c; Python reference "
-          "reader of the dialect (props/c12.py). Callbacks propagate return codes. Attribute values containing '=' are outside "
-          "the proved dialect: the parser drops such attributes (open finding C12-attr-value-equals)."),
+          "reader of the dialect (props/c12.py). Callbacks propagate return codes. Attribute values may contain '=' (the parser "
+          "splits a piece at its first '=' only, /repo 0df3cf8)."),
     technique="Lean 4 invariants and structural induction over a faulting-memory model + model/implementation differential run + tree oracle",
 )
